@@ -1504,3 +1504,162 @@ func init() {
 			return out
 		}})
 }
+
+// ARGCACHE — what depends on an argument is not computed once and kept.
+//
+// `if eval.EvaluationKeySet == nil { eval.Evaluator = eval.Evaluator.WithKey(BRK.GetEvaluationKeySet()) }` loads the keys
+// of the first call and keeps them: a later call with another key set runs on the first one's keys, without error. A
+// nil test of receiver state is a cache test; what it guards may be derived from the receiver and from constants, not
+// from a parameter that can differ from call to call.
+//
+// Rule: in a method, the then-branch of `if recv.… == nil` (no else) does not store into the receiver (the tested path or
+// an object that contains it) a value that depends on a parameter of the method — constructors, With*/Set* methods and
+// methods whose name starts with init/Init/lazy excepted (they are called once, or are the way to change the value).
+func scanArgCache(c *core.Ctx) []ob {
+	var out []ob
+	n := 0
+	c.FuncDecls(func(pk *packages.Package, file *ast.File, fd *ast.FuncDecl) {
+		if fd.Body == nil || fd.Recv == nil || fileIsTestSupport(c.Program, fd.Pos()) || inExamples(pk) {
+			return
+		}
+		nm := fd.Name.Name
+		if strings.HasPrefix(nm, "With") || strings.HasPrefix(nm, "Set") || strings.HasPrefix(strings.ToLower(nm), "init") || strings.HasPrefix(nm, "lazy") || strings.HasPrefix(nm, "New") {
+			return
+		}
+		info := pk.TypesInfo
+		recv := recvObj(info, fd)
+		if recv == nil {
+			return
+		}
+		params := map[types.Object]bool{}
+		for _, fl := range fd.Type.Params.List {
+			for _, p := range fl.Names {
+				if o := info.Defs[p]; o != nil {
+					params[o] = true
+				}
+			}
+		}
+		if len(params) == 0 {
+			return
+		}
+		fkey := core.FuncKey(pk, fd)
+		// locals defined from parameters (one level: evk, err := BRK.Get())
+		dependsOnParam := func(e ast.Expr, body *ast.BlockStmt) types.Object {
+			var hit types.Object
+			var visit func(e ast.Node, depth int)
+			visit = func(e ast.Node, depth int) {
+				ast.Inspect(e, func(x ast.Node) bool {
+					id, ok := x.(*ast.Ident)
+					if !ok || hit != nil {
+						return true
+					}
+					o := info.Uses[id]
+					if o == nil {
+						return true
+					}
+					if params[o] {
+						hit = o
+						return false
+					}
+					if depth < 2 && body != nil {
+						// a local of the guarded block defined from a parameter
+						ast.Inspect(body, func(y ast.Node) bool {
+							if as, ok := y.(*ast.AssignStmt); ok && as.Tok == token.DEFINE {
+								for _, l := range as.Lhs {
+									if lid, ok := l.(*ast.Ident); ok && info.Defs[lid] == o {
+										for _, r := range as.Rhs {
+											visit(r, depth+1)
+										}
+									}
+								}
+							}
+							return true
+						})
+					}
+					return true
+				})
+			}
+			visit(e, 0)
+			return hit
+		}
+		ast.Inspect(fd.Body, func(x ast.Node) bool {
+			is, ok := x.(*ast.IfStmt)
+			if !ok || is.Else != nil {
+				return true
+			}
+			be, ok := unparen(is.Cond).(*ast.BinaryExpr)
+			if !ok || be.Op != token.EQL {
+				return true
+			}
+			var tested ast.Expr
+			if isNilIdent(be.Y) {
+				tested = be.X
+			} else if isNilIdent(be.X) {
+				tested = be.Y
+			}
+			if tested == nil {
+				return true
+			}
+			if r := rootIdent(tested); r == nil || info.Uses[r] != types.Object(recv) {
+				return true
+			}
+			if _, isSel := unparen(tested).(*ast.SelectorExpr); !isSel {
+				return true
+			}
+			n++
+			key := fmt.Sprintf("ARGCACHE:%s#%s", fkey, exprString(tested))
+			var bad *ast.AssignStmt
+			var badParam types.Object
+			ast.Inspect(is.Body, func(y ast.Node) bool {
+				as, ok := y.(*ast.AssignStmt)
+				if !ok || bad != nil || len(as.Lhs) != len(as.Rhs) {
+					return true
+				}
+				for i, l := range as.Lhs {
+					ls, ok := unparen(l).(*ast.SelectorExpr)
+					if !ok {
+						continue
+					}
+					if r := rootIdent(ls); r == nil || info.Uses[r] != types.Object(recv) {
+						continue
+					}
+					// the stored object is the tested path or contains it (promoted through an embedded field)
+					lt, tt := exprString(ls), exprString(tested)
+					related := lt == tt || strings.HasPrefix(tt, lt+".")
+					if !related {
+						if sel := info.Selections[unparen(tested).(*ast.SelectorExpr)]; sel != nil && len(sel.Index()) > 1 {
+							related = true // tested through a promoted field: any store into the receiver's embedded objects
+						}
+					}
+					if !related {
+						continue
+					}
+					if p := dependsOnParam(as.Rhs[i], is.Body); p != nil {
+						bad, badParam = as, p
+					}
+				}
+				return true
+			})
+			if bad != nil {
+				out = append(out, withProps(violOb("ARGCACHE", key, c.Rel(bad.Pos()), fmt.Sprintf("%s stores a value derived from its parameter %s into the receiver only when %s is nil: the value of the first call is kept and a later call with another %s silently runs on it", fkey, badParam.Name(), exprString(tested), badParam.Name())), propsForKey(fkey)...))
+			} else {
+				out = append(out, withProps(okOb("ARGCACHE", key, c.Rel(is.Pos()), "what the nil test guards does not depend on a parameter", true), propsForKey(fkey)...))
+			}
+			return true
+		})
+	})
+	c.Stats["argcache_sites"] = n
+	return out
+}
+
+func init() {
+	core.Register(&core.Rule{Name: "ARGCACHE", Wide: true, Props: []string{"C20", "C10"},
+		Doc: "in a method (constructors, With*/Set*/init* excepted) the then-branch of `if recv.… == nil` without else does not store into the tested receiver state a value that depends on a parameter of the method: per-call arguments are not cached by the first call",
+		Run: func(c *core.Ctx) []ob {
+			out := scanArgCache(c)
+			for _, o := range control(c, "ARGCACHE", scanArgCache, "(fxRot).Apply") {
+				out = append(out, withProps(o, "C20"))
+			}
+			return out
+		}})
+}
